@@ -80,7 +80,7 @@ func c15Class(s string) string {
 func c15Sites() []string {
 	return []string{"desc:object", "desc:field", "desc:argument", "desc:enum", "desc:enum-value", "desc:input", "desc:input-field", "desc:scalar", "desc:union", "desc:interface", "desc:interface-field",
 		"desc:directive", "desc:directive-argument",
-		"const:argument-default", "const:input-field-default", "const:directive-argument-default", "const:directive-use-on-type", "const:directive-use-on-field", "const:list-default", "const:object-default"}
+		"const:argument-default", "const:input-field-default", "const:directive-argument-default", "const:directive-use-on-type", "const:directive-use-on-field", "const:list-default", "const:object-default", "const:scalar-object-key"}
 }
 
 func c15SiteSchema(site, x string) *sgen.Schema {
@@ -105,7 +105,9 @@ func c15SiteSchema(site, x string) *sgen.Schema {
 				{Name: "f", Desc: d("field"), Type: N("Int"), Dirs: []sgen.DirUse{{Name: "dd", Args: []sgen.KV{{Name: "x", Value: k("directive-use-on-field", "USE2")}}}},
 					Args: []*sgen.Arg{{Name: "a", Desc: d("argument"), Type: N("String"), HasDef: true, Default: k("argument-default", "DEF")},
 						{Name: "l", Type: L(N("String")), HasDef: true, Default: []interface{}{"p", k("list-default", "q")}},
-						{Name: "o", Type: N("In"), HasDef: true, Default: map[string]interface{}{"s": k("object-default", "r")}}}},
+						{Name: "o", Type: N("In"), HasDef: true, Default: map[string]interface{}{"s": k("object-default", "r")}},
+					// a free-form object for a custom scalar: the string is a KEY
+					{Name: "j", Type: N("Sc"), HasDef: true, Default: map[string]interface{}{k("scalar-object-key", "key").(string): 1, "z": []interface{}{map[string]interface{}{k("scalar-object-key", "key").(string): "v"}}}}}},
 				{Name: "e", Type: N("En")}, {Name: "sc", Type: N("Sc")}, {Name: "u", Type: N("U")}, {Name: "i", Type: N("If")}}},
 		{Kind: sgen.KEnum, Name: "En", Desc: d("enum"), Values: []*sgen.EnumVal{{Name: "V", Desc: d("enum-value")}, {Name: "W"}}},
 		{Kind: sgen.KInput, Name: "In", Desc: d("input"), Fields: []*sgen.Field{{Name: "s", Desc: d("input-field"), Type: N("String"), HasDef: true, Default: k("input-field-default", "DEF")}}},
